@@ -85,12 +85,22 @@ def exec (env : Env) : List Step → List V → M (List V)
   | [], st => .ok st
   | s :: ss, st => applyStep env s st >>= exec env ss
 
+/-- A stack value as the final test sees it (the exact-arithmetic model never produces ±inf). -/
+def ofV : V → FloatClass
+  | some q => .finite q
+  | none => .nan
+
+/-- `res = eval_stack.pop(); if <final test>: return Sample(ts, None); return Sample(ts, create(res))` — the test
+is `Extracted.Formula.resultIsNone`, taken from the source. -/
+def emitValue (v : V) : Option Rat :=
+  if Extracted.Formula.resultIsNone (ofV v) then none else v
+
 /-- `FormulaEvaluator.apply` once all inputs of the round are there: run the steps on an empty stack;
-exactly one value must remain.  `isnan(res) or isinf(res)` -> `Sample(ts, None)`, i.e. `none`. -/
+exactly one value must remain; then the final test. -/
 def run (steps : List Step) (env : Env) : M V :=
   exec env steps [] >>= fun st =>
     match st with
-    | [v] => .ok v
+    | [v] => .ok (emitValue v)
     | _ => .error .stack
 
 structure Sample where
